@@ -609,7 +609,7 @@ run_pdi(const Cfg& c, const shared_ptr<Scanner>& scanner, const shared_ptr<ProjD
         judge(nb, err, miss, +1, "", true);
 
         // ---- the same geometric line in the other LOR types, with end points moved along the line, and with its direction reversed
-        if (!pg && (to_model || idx % 3 == 0))
+        if (!pg && (to_model || thorough || idx % 3 == 0))
           {
             ++total.reps;
             const LORInCylinderCoordinates<float> cyl(lor);
@@ -638,9 +638,14 @@ run_pdi(const Cfg& c, const shared_ptr<Scanner>& scanner, const shared_ptr<ProjD
               {
                 // (the conversion cylinder -> sinogram coordinates reverses the direction iff psi1 - psi2 in (pi,2pi): see `known` above)
                 {
-                  const LORInCylinderCoordinates<float>& cc = r.sign > 0 ? cyl : cylrev;
-                  const double d12 = double(cc.p1().psi()) - cc.p2().psi();
-                  lor_dir_defect_applies = lor_dir_defect_present && d12 > PI - 1e-3;
+                  // (the cylinder coordinates that get_bin computes from this object: an angle of 0 may come out as 2 pi - rounding error)
+                  LORInCylinderCoordinates<float> cc;
+                  lor_dir_defect_applies = false;
+                  if (lor_dir_defect_present && r.l->change_representation(cc, lor.radius()) == Succeeded::yes)
+                    {
+                      const double d12 = double(cc.p1().psi()) - cc.p2().psi();
+                      lor_dir_defect_applies = d12 > PI - 1e-3 || (d12 < 0 && (cc.p1().psi() < 1e-3F || cc.p2().psi() > 2 * PI - 1e-3));
+                    }
                 }
                 Bin rb;
                 bool rerr, rmiss;
@@ -1620,7 +1625,7 @@ run_lor_conversions(vh::Rng& rng, int ncases)
             || !near(si.s(), R * std::sin(beta), 1e-5 * R) || si.is_swapped() != na.is_swapped() || si.z1() != na.z1() || si.z2() != na.z2())
           ofail("lor-standard-range", "sinogram coordinates made from cylinder coordinates are outside 0<=phi<pi, |beta|<=pi/2 or inconsistent");
         const double d12 = double(c.p1().psi()) - c.p2().psi();
-        const bool defect_class = d12 > PI - 1e-3;
+        bool defect_class = d12 > PI - 1e-3;
         auto cmp = [&](const LORAs2Points<float>& Q, const char* what) {
           ++oracle_checks;
           const bool same = norm(Q.p1() - P.p1()) <= tol && norm(Q.p2() - P.p2()) <= tol;
@@ -1663,6 +1668,12 @@ run_lor_conversions(vh::Rng& rng, int ncases)
                                                                                       + " LOR to its own radius reports failure");
                 continue;
               }
+            {
+              // (the cylinder coordinates recomputed from points: an angle of 0 may come out as 2 pi - rounding error, which puts the
+              //  LOR into the class psi1 - psi2 in (pi, 2 pi) of the known direction defect)
+              const double e12 = double(yc.p1().psi()) - yc.p2().psi();
+              defect_class = d12 > PI - 1e-3 || e12 > PI - 1e-3;
+            }
             if (i == 1 || i == 2)
               { // reference: the direction this object has
                 const LORAs2Points<float> Pi = i == 1 ? LORAs2Points<float>(na) : LORAs2Points<float>(si);
@@ -2045,8 +2056,8 @@ main(int argc, char** argv)
     {
       run_overlap(rng, thorough ? 4000 : 800);
       run_arc(rng, thorough ? 300 : 60);
-      run_arc_overloads(rng, thorough ? 60 : 12);
-      run_lor_conversions(rng, thorough ? 6000 : 1000);
+      run_arc_overloads(rng, thorough ? 120 : 12);
+      run_lor_conversions(rng, thorough ? 20000 : 1000);
     }
   catch (std::exception& e)
     {
